@@ -208,6 +208,10 @@ func (e *Engine) verifyFunc(fn *ssa.Function, c *Contract, prop string) (rep *Fu
 			if len(en.Props) > 0 && prop != "" && !contains(en.Props, prop) {
 				continue
 			}
+			if en.Assumed {
+				e.note("clause `" + orStr(en.Label, en.Src) + "` of " + key + " is assumed (not checked against the body)")
+				continue
+			}
 			env := &SpecEnv{e: e, pre: e.entry, post: o.st, vars: ovars, pkg: pkg, paramsFirst: true, allocBefore: e.entry.allocTerm(), params: vars, topFr: orFrame(o.fr, fr)}
 			g := env.evalBool(en.E)
 			e.emit(&Obligation{Kind: "post", Fn: key, Label: orStr(en.Label, fmt.Sprint(i+1)), PC: o.st.pc, Goal: g, Src: en.Src, Line: en.Line, Trace: o.st.trace})
